@@ -18,11 +18,13 @@ TAG = "[C01]"
 GEOMETRIES = [("tree_huge_1",), ("tree_huge_2",), (), ("tree_huge_8",)]   # () = default TREE_HUGE = 4
 
 
-def jobs(ctx):
+def jobs(ctx, rel):
     if ctx.quick:
         return [["--mode", "exhaustive", "--scenario", "all", "--preemptions", "2"],
                 ["--mode", "pct", "--scenario", "all", "--runs", "300", "--depth", "3", "--seed", str(ctx.seed)]]
+    two = ",".join(n for n, t in sc.scenarios(rel) if t <= 2)
     return [["--mode", "exhaustive", "--scenario", "all", "--preemptions", "3"],
+            ["--mode", "exhaustive", "--scenario", two, "--preemptions", "5"],
             ["--mode", "pct", "--scenario", "all", "--runs", "20000", "--depth", "4", "--seed", str(ctx.seed)]]
 
 
@@ -65,7 +67,7 @@ def run(ctx):
                 corr.append(("harness build failed (%s)" % (",".join(feats) or "default"), ctx.notes[-1:]))
                 continue
             label = ",".join(feats) or "default"
-            fails, summ, notes = sc.run_jobs(ctx, rel, exe, jobs(ctx), feats, label=vlib.feat_dir(feats),
+            fails, summ, notes = sc.run_jobs(ctx, rel, exe, jobs(ctx, rel), feats, label=vlib.feat_dir(feats),
                                              timeout=80 if ctx.quick else 1000)
             ctx.notes += notes
             mine = [f for f in fails if f.kind == "ORACLE" and f.tag == TAG]
@@ -98,7 +100,7 @@ def run(ctx):
         "tied to the compiled code by replaying every scheduled step of real threads on the extracted machine; the "
         "held-blocks predicate is evaluated on the implementation's own results after every return.",
         "schedules: all schedules with at most P preemptions (a preemption = switching away from a thread in the middle "
-        "of a call; P = 2 quick, 3 thorough) of every built-in scenario (2-3 threads: base gets on one tree, order 0 vs "
+        "of a call; P = 2 quick; thorough: 3, and 5 for the two-thread scenarios, geometries TREE_HUGE = 1, 2, 4, 8) of every built-in scenario (1-4 threads: base gets on one tree, order 0 vs "
         "7/8/9, get_at twice, get vs put in one row, puts of two parts of one held huge block, order 9 / tree order "
         "races, mixed) + PCT random priority schedules; non-trivial = the schedule contains a failed CAS or a switch "
         "away from a thread in the middle of a call; distinct = distinct (scenario, geometry, thread-id sequence)")
